@@ -158,10 +158,10 @@ POOLONLY = ('tostring', 'toformatstring', 'getkeyset', 'tokeyset')
 # quick-tier / thorough-tier bounds: (pool keys, caps, load factors, max sizes)
 # paths budget directives per harness kind
 DIRECTIVE = {
-    ('C09', 'Pool'): 'paths=200000 deadline=3m t.paths=4000000 t.deadline=30m',
-    ('C09', 'Symbolic'): 'paths=50000 deadline=3m t.paths=1000000 t.deadline=40m',
-    ('C12', 'Pool'): 'paths=100000 deadline=2m t.paths=2000000 t.deadline=30m',
-    ('C12', 'Symbolic'): 'paths=50000 deadline=2m t.paths=1000000 t.deadline=40m',
+    ('C09', 'Pool'): 'paths=200000 deadline=5m t.paths=4000000 t.deadline=30m',
+    ('C09', 'Symbolic'): 'paths=50000 deadline=5m t.paths=1000000 t.deadline=40m',
+    ('C12', 'Pool'): 'paths=100000 deadline=4m t.paths=2000000 t.deadline=30m',
+    ('C12', 'Symbolic'): 'paths=50000 deadline=4m t.paths=1000000 t.deadline=40m',
 }
 
 # ----------------------------------------------------------------------------------------------
